@@ -31,13 +31,20 @@ type ScnOpts struct {
 	GasMap  map[string]map[string]uint64
 	NoHold  bool // do not give A anything
 	Enabled []string
+	// LateActivation: the gated functions' activation epoch is 5 and no epoch is confirmed at
+	// construction (they start inactive).
+	LateActivation bool
 }
 
 func NewScn(r *harness.Rand, rep *harness.Reporter, o ScnOpts) *Scn {
 	if o.Shards == 0 {
 		o.Shards = 2
 	}
-	u, err := gen.NewUniverse(r, gen.UniOpts{Shards: o.Shards, Users: 6, Contracts: 0, GasMap: o.GasMap, NameChange: true})
+	uo := gen.UniOpts{Shards: o.Shards, Users: 6, Contracts: 0, GasMap: o.GasMap, NameChange: true}
+	if o.LateActivation {
+		uo.Activation, uo.NoConfirm = 5, true
+	}
+	u, err := gen.NewUniverse(r, uo)
 	if err != nil {
 		panic(err)
 	}
